@@ -13,6 +13,10 @@ all exact polynomial identities (for every state of the shape, every environment
   result        the reported energies are the eigensolver's, in sweep order; the state handed back is the one updated with the eigenvector of the site the
                 caller asked for (`last_opt_e_idx`); after the sweep the direction is switched.
 
+Several roots (state-averaged sweeps): the stub returns min(nroots, dimension) arbitrary vectors; the matrix clause is owed at every problem in the common frames the
+state-averaged update leaves, and one state per root is handed back for the requested site, each carrying its own eigenvector.  Which root the working state keeps at
+its centre and the guesses the update hands to the iterative solver do not enter the property and are not constrained.
+
 Together with the variational theorem (cited), orthonormal frames (C04/C18) and the eigensolver contracts (bounded, C18) this gives: every reported energy is a
 Rayleigh quotient of H in the sector, and the returned state is the state with that energy."""
 import numpy as np
@@ -27,8 +31,9 @@ from props.C09_tdvp_sym import conj_arr, unit_vec, _obj, dense_of
 
 
 class SweepRecorder:
-    def __init__(self, vf, real=None):
-        self.vf, self.real, self.calls = vf, real, []
+    def __init__(self, vf, real=None, nroots=1):
+        self.vf, self.real, self.calls, self.nroots = vf, real, [], nroots
+        self.updates = []        # state-averaged: what the renormalised-basis update of the working state returned (one tensor per root) and the tensors it left
 
     @property
     def sym(self):
@@ -41,13 +46,22 @@ class SweepRecorder:
                 "qnidx": int(mps.qnidx), "to_right": bool(mps.to_right)}
         k = len(self.calls)
         nvar = int(np.sum(qn_mask))
-        if self.sym:
+        if self.sym and self.nroots == 1:
             c = np.array([self.vf.fresh() for _ in range(nvar)], dtype=object)
             e = float(k + 1) / 8.0
+        elif self.sym:
+            # several roots: as many vectors as the local space has (the real solver returns min(nroots, dimension)), energies as an array
+            m = min(self.nroots, nvar)
+            c = [np.array([self.vf.fresh() for _ in range(nvar)], dtype=object) for _ in range(m)]
+            e = np.array([float(k + 1) / 8.0 + j / 64.0 for j in range(m)])
         else:
             e, c = self.real(mps, qn_mask, ltensor, rtensor, cmo, omega)
-        self.calls.append({"ham": np.asarray(ham, dtype=object if self.sym else complex), "mask": np.asarray(qn_mask).copy(), "snap": snap, "e": e,
-                           "c": np.asarray(c, dtype=object if self.sym else None).copy()})
+        if self.nroots == 1:
+            cc = np.asarray(c, dtype=object if self.sym else None).copy()
+        else:
+            cc = [np.asarray(x, dtype=object if self.sym else None).copy() for x in c]
+        self.calls.append({"ham": np.asarray(ham, dtype=object if self.sym else complex), "mask": np.asarray(qn_mask).copy(), "snap": snap,
+                           "e": e if self.nroots == 1 else [float(x) for x in np.asarray(e).reshape(-1)], "c": cc})
         return e, c
 
 
@@ -84,17 +98,28 @@ def frame(template, snap, cidx, mask, sym):
     return np.array(cols, dtype=object if sym else complex).T
 
 
-def execute(x, Hobj, method, omega, last_idx, rec):
+def execute(x, Hobj, method, omega, last_idx, rec, nroots=1):
     """the real single_sweep with the local eigensolver replaced by the recorder; environments as optimize_mps builds them"""
     import renormalizer.mps.gs as gs
     from renormalizer.mps.lib import Environ
     from renormalizer.mps import Mpo
     from renormalizer.utils import CompressConfig, CompressCriteria
+    import renormalizer.mps.mp as mp_mod
     saved = gs.eigh_direct
     gs.eigh_direct = rec.eigh_direct
+    orig_update = mp_mod.MatrixProduct._update_mps
+
+    def spy(self, cstruct, cidx, qnbigl, qnbigr, percent=0):
+        out = orig_update(self, cstruct, cidx, qnbigl, qnbigr, percent)
+        if self is x and type(cstruct) is list:
+            rec.updates.append({"avg": [(_obj(t) if rec.sym else np.asarray(getattr(t, "array", t))).copy() for t in out],
+                                "tensors": [(_obj(self[i]) if rec.sym else np.asarray(self[i].array)).copy() for i in range(len(self))],
+                                "coeff": self.coeff, "qnidx": int(self.qnidx)})
+        return out
+    mp_mod.MatrixProduct._update_mps = spy
     try:
         x.optimize_config.method = method
-        x.optimize_config.nroots = 1
+        x.optimize_config.nroots = nroots
         x.optimize_config.algo = "direct"
         x.compress_config = CompressConfig(CompressCriteria.fixed, max_bonddim=10 ** 4)
         env = "R" if x.to_right else "L"
@@ -111,9 +136,10 @@ def execute(x, Hobj, method, omega, last_idx, rec):
         return micro, res, x
     finally:
         gs.eigh_direct = saved
+        mp_mod.MatrixProduct._update_mps = orig_update
 
 
-def clauses(rec, sched, template, Hop, va, micro, res, work, last_idx, to_right0, sym):
+def clauses(rec, sched, template, Hop, va, micro, res, work, last_idx, to_right0, sym, nroots=1):
     cj = conj_arr if sym else np.conj
     yield ("schedule_one_problem_per_site_in_sweep_order", "", len(rec.calls), len(sched), f"{len(rec.calls)} local eigenproblems posed, the sweep has {len(sched)}")
     prev_after, complete = va, True
@@ -130,34 +156,49 @@ def clauses(rec, sched, template, Hop, va, micro, res, work, last_idx, to_right0
             yield ("frames_are_orthonormal", ctag, cj(J).T.dot(J), np.eye(J.shape[1]) * abs(c["snap"]["coeff"]) ** 2, None)
         yield ("matrix_is_the_hamiltonian_projected_on_the_current_frames", ctag, c["ham"], cj(J).T.dot(Hop.dot(J)), None)
         # the state in which the problem is posed: the tensors held at that moment (their own centre values)
-        yield ("posed_in_the_state_the_previous_update_produced", ctag, dense_of(template, T, c["snap"]["coeff"]), prev_after, None)
-        prev_after = J.dot(c["c"])
-        if last_idx is not None and cidx == last_idx:
-            yield ("returned_state_carries_the_eigenvector_of_the_requested_site", ctag, S.dense(res) if res is not None else None, prev_after, None)
+        if nroots == 1:
+            yield ("posed_in_the_state_the_previous_update_produced", ctag, dense_of(template, T, c["snap"]["coeff"]), prev_after, None)
+        if nroots == 1:
+            prev_after = J.dot(c["c"])
+            if last_idx is not None and cidx == last_idx:
+                yield ("returned_state_carries_the_eigenvector_of_the_requested_site", ctag, S.dense(res) if res is not None else None, prev_after, None)
+        else:
+            # several roots: the working state only carries the common frames (which root sits at its centre, and the guesses the update hands back, steer the
+            # iterative solver but not the property); what is owed is the matrix clause above in those frames and one returned state per root
+            prev_after = None
+            if last_idx is not None and cidx == last_idx:
+                if not isinstance(res, list) or len(res) != len(c["c"]):
+                    yield ("one_returned_state_per_root", ctag, 0, 1, f"returned {type(res).__name__} of length {len(res) if isinstance(res, list) else '-'} for {len(c['c'])} roots")
+                else:
+                    for i, ci in enumerate(c["c"]):
+                        yield ("returned_state_carries_the_eigenvector_of_the_requested_site", f"{ctag}:root{i}", S.dense(res[i]), J.dot(ci), None)
     if complete and len(rec.calls) == len(sched):
-        yield ("energies_are_the_eigensolvers_in_sweep_order", "", [(float(e), list(ci)) for e, ci in micro], [(float(c["e"]), list(ci)) for c, ci in zip(rec.calls, sched)],
+        fl = (lambda e: float(e)) if nroots == 1 else (lambda e: [float(x) for x in e])
+        yield ("energies_are_the_eigensolvers_in_sweep_order", "", [(fl(e), list(ci)) for e, ci in micro], [(fl(c["e"]), list(ci)) for c, ci in zip(rec.calls, sched)],
                f"reported {[(e, ci) for e, ci in micro]}")
-        yield ("state_after_the_sweep_is_the_last_update", "", S.dense(work), prev_after, None)
+        if nroots == 1:
+            yield ("state_after_the_sweep_is_the_last_update", "", S.dense(work), prev_after, None)
         yield ("direction_switched", "", bool(work.to_right), (not to_right0), f"to_right after the sweep: {work.to_right}")
 
 
-def native_replay(t0, H, method, omega, last_idx, seed):
+def native_replay(t0, H, method, omega, last_idx, seed, nroots=1):
     def go():
         import renormalizer.mps.gs as gs
         from renormalizer.mps import Mpo
         rng = np.random.default_rng(seed)
-        atc = S.complexify(t0, rng)
+        # several roots: real data (the state-averaged update rotates with the transposed basis, gs.py / mp.py use no conjugate there: real Hamiltonians only)
+        atc = S.complexify(t0, rng) if nroots == 1 else t0.copy()
         atc.canonicalise().canonicalise()       # optimize_mps hands single_sweep a canonical state with the centre at the start of the sweep
         Hn = S.dense(H)
         Hop = Hn if omega is None else (Hn - omega * np.eye(Hn.shape[0])) @ (Hn - omega * np.eye(Hn.shape[0]))
-        rec = SweepRecorder(None, real=gs.eigh_direct)
+        rec = SweepRecorder(None, real=gs.eigh_direct, nroots=nroots)
         try:
-            micro, res, work = execute(atc.copy(), H.copy(), method, omega, last_idx, rec)
+            micro, res, work = execute(atc.copy(), H.copy(), method, omega, last_idx, rec, nroots)
         except Exception as e:
             return True, {"raised": repr(e)}
         failed = []
         scale = max(1.0, float(np.abs(Hop).max()))
-        for cl, ctag, lhs, rhs, msg in clauses(rec, schedule(len(t0), bool(t0.to_right), method), atc, Hop, S.dense(atc), micro, res, work, last_idx, bool(t0.to_right), False):
+        for cl, ctag, lhs, rhs, msg in clauses(rec, schedule(len(t0), bool(t0.to_right), method), atc.to_complex(), Hop, S.dense(atc), micro, res, work, last_idx, bool(t0.to_right), False, nroots):
             if msg is not None:
                 if lhs != rhs:
                     failed.append({"clause": cl + ctag, "what": msg})
@@ -195,20 +236,22 @@ def prove(run):
                 if method == "2site" and n < 2:
                     continue
                 sched0 = schedule(n, bool(t0.to_right), method)
-                for omega in (None, 0.3):
-                    for last_idx in (None, sched0[len(sched0) // 2], sched0[-1]):
-                        if omega is not None and last_idx is sched0[-1]:
-                            continue
+                combos = [(om, li, 1) for om in (None, 0.3) for li in (None, sched0[len(sched0) // 2], sched0[-1]) if not (om is not None and li is sched0[-1])]
+                if not name.endswith("-flux"):
+                    # state-averaged sweeps (several roots): real Hamiltonians (the averaged-basis rotation is written without conjugates)
+                    combos += [(None, sched0[len(sched0) // 2], 2)] + ([(None, sched0[-1], 3), (0.3, None, 2)] if run.tier != "quick" else [])
+                for omega, last_idx, nroots in combos:
+                    if True:
                         ncase += 1
                         vf = VarFactory()
                         a = SH.symbolic_state(t0, vf)
-                        tag = f"{method}@{name}{n}:{sname}:{'omega' if omega is not None else 'H'}:last={last_idx}"
-                        case = {"model": name, "nsites": n, "start": sname, "method": method, "omega": omega, "last_opt_e_idx": last_idx}
+                        tag = f"{method}@{name}{n}:{sname}:{'omega' if omega is not None else 'H'}:last={last_idx}" + (f":roots{nroots}" if nroots > 1 else "")
+                        case = {"model": name, "nsites": n, "start": sname, "method": method, "omega": omega, "last_opt_e_idx": last_idx, "nroots": nroots}
                         fn = "gs.single_sweep"
                         vf2 = VarFactory()
                         vf2.n = 50000
-                        rec = SweepRecorder(vf2)
-                        replay = native_replay(t0, H, method, omega, last_idx, [run.seed, n, 23])
+                        rec = SweepRecorder(vf2, nroots=nroots)
+                        replay = native_replay(t0, H, method, omega, last_idx, [run.seed, n, 23], nroots)
                         with SH.kernel_stub_mode():
                             Hs = SH.numeric_to_symbolic_const(H)
                             Hd, va = S.dense(Hs), S.dense(a)
@@ -218,20 +261,20 @@ def prove(run):
                                 shift = Hd - np.array([[Poly.const(omega) if i == j else Poly() for j in range(Hd.shape[0])] for i in range(Hd.shape[0])], dtype=object)
                                 Hop = shift.dot(shift)
                             try:
-                                micro, res, work = execute(a.copy(), Hs, method, omega, last_idx, rec)
+                                micro, res, work = execute(a.copy(), Hs, method, omega, last_idx, rec, nroots)
                             except Exception as e:
                                 decide_true(run, f"post:{fn}:total[{tag}]", fn, False, f"raised on symbolic tensors: {type(e).__name__}: {e}", case, numeric_replay=replay)
                                 continue
                             ncalls += len(rec.calls)
-                            for cl, ctag, lhs, rhs, msg in clauses(rec, sched0, a, Hop, va, micro, res, work, last_idx, bool(t0.to_right), True):
-                                pre = "pre:local_eigensolver" if cl.startswith(("matrix_", "posed_", "schedule_", "local_space")) else "post:" + fn
+                            for cl, ctag, lhs, rhs, msg in clauses(rec, sched0, a, Hop, va, micro, res, work, last_idx, bool(t0.to_right), True, nroots):
+                                pre = "pre:local_eigensolver" if cl.startswith(("matrix_", "posed_", "schedule_", "local_space")) else ("post:_update_mps" if cl.startswith(("root_kept", "one_guess", "one_basis")) else "post:" + fn)
                                 oid = f"{pre}:{cl}[{tag}{ctag}]"
                                 if msg is not None:
-                                    decide_true(run, oid, fn, lhs == rhs, msg, case, fields={"method": method}, numeric_replay=replay)
+                                    decide_true(run, oid, fn, lhs == rhs, msg, case, fields={"method": method, "nroots": nroots}, numeric_replay=replay)
                                 elif lhs is None:
-                                    decide_true(run, oid, fn, False, "no state was handed back for the requested site", case, fields={"method": method}, numeric_replay=replay)
+                                    decide_true(run, oid, fn, False, "no state was handed back for the requested site", case, fields={"method": method, "nroots": nroots}, numeric_replay=replay)
                                 else:
-                                    decide(run, oid, fn, lhs, rhs, case, fields={"method": method}, numeric_replay=replay)
+                                    decide(run, oid, fn, lhs, rhs, case, fields={"method": method, "nroots": nroots}, numeric_replay=replay)
                             decide(run, f"frame:{fn}:hamiltonian[{tag}]", fn, S.dense(Hs), Hd, case)
                         native_pass(run, f"rtc:{fn}:local_problems_with_the_real_kernels_incl_orthonormal_frames", fn, replay, (tag,), case)
     run.extra.setdefault("symx", {})["C08_sweep"] = {"sweep_cases": ncase, "local_problems": ncalls, "kernel_stubs": SH.KERNEL_STUBS, "shims": SH.SHIMS,
